@@ -288,7 +288,7 @@ def run_codec(run, model, unit, quick):
                     meta = eval(m.strip(), {"__builtins__": {}}, {})
                     l = l.strip()
                 cases.append((l, meta))
-    cases += gen_cases(r, 2500 if quick else 40000)
+    cases += gen_cases(r, 2500 if quick else 30000)
     cases += gen_typed(r, 90 if quick else 1800)
     lines = [c for c, _ in cases]
     rc1, impl, e1 = V.run_lines(unit, lines, timeout=900)
